@@ -91,6 +91,23 @@ h!(c04_el_message_data_signed_l9, 70, input_offsets(Input::message_data_signed(a
 h!(c04_el_message_data_predicate_l1_l2_l1, 70, input_offsets(Input::message_data_predicate(addr(), addr(), kani::any(), Nonce::from(b32()), kani::any(), bytes::<1>(), bytes::<2>(), bytes::<1>())));
 h!(c04_el_message_data_predicate_l8_l1_l0, 70, input_offsets(Input::message_data_predicate(addr(), addr(), kani::any(), Nonce::from(b32()), kani::any(), bytes::<8>(), bytes::<1>(), bytes::<0>())));
 
+/// Only the predicate / predicate-data offsets (the message-data-predicate variant with three vectors
+/// is too heavy for the full field table in the quick tier).
+fn predicate_offsets(i: Input) {
+    let b = i.to_bytes();
+    let p = i.input_predicate().unwrap();
+    let d = i.input_predicate_data().unwrap();
+    assert!(at(&b, i.predicate_offset(), p));
+    assert!(i.predicate_data_offset() == i.predicate_offset().map(|o| o + padded(p.len())));
+    assert!(at(&b, i.predicate_data_offset(), d));
+    if let Some(md) = i.input_data() { if i.is_message() { assert!(at(&b, i.repr().data_offset(), md)); } }
+    kani::cover!(true, "predicate offsets checked");
+    core::mem::forget(b);
+    core::mem::forget(i);
+}
+h!(c04_el_msgdata_predicate_offsets_l1_l2_l1, 70, predicate_offsets(Input::message_data_predicate(addr(), addr(), kani::any(), Nonce::from(b32()), kani::any(), bytes::<1>(), bytes::<2>(), bytes::<1>())));
+h!(c04_el_msgdata_predicate_offsets_l3_l4_l0, 70, predicate_offsets(Input::message_data_predicate(addr(), addr(), kani::any(), Nonce::from(b32()), kani::any(), bytes::<3>(), bytes::<4>(), bytes::<0>())));
+
 fn output_offsets(o: Output) {
     let b = o.to_bytes();
     let r = OutputRepr::from_output(&o);
